@@ -550,7 +550,7 @@ theorem memberNames_group (vm : State) (g : String) :
 theorem memberNames_location (vm : State) (g : String) :
     memberNames .location vm g = dedupSorted ((vm.locationLights g).getD []) := rfl
 
-theorem iterNames_error (items : List IterItem) (hitems : ∀ i ∈ items, ItemOK i) :
+theorem iterNames_error (items : List IterItem) :
     ∀ (f : Nat) (σ : S) (o : Outcome), iterNames f items σ = .error o → o ≠ .normal ∧ o ≠ .brk ∧ o ≠ .ret := by
   induction items with
   | nil => intro f σ o h; cases f <;> simp [iterNames] at h; subst h; simp
@@ -563,9 +563,8 @@ theorem iterNames_error (items : List IterItem) (hitems : ∀ i ∈ items, ItemO
       split at h
       · rename_i o' he
         simp at h; subst h
-        exact ih (fun i hi => hitems i (by simp [hi])) f σ _ he
+        exact ih f σ _ he
       · rename_i ys σ1 _
-        have hitem := hitems item (by simp)
         split at h
         · rename_i o' hone
           simp at h; subst h
@@ -578,7 +577,7 @@ theorem iterNames_error (items : List IterItem) (hitems : ∀ i ∈ items, ItemO
             · simp at hone; subst hone; simp
             · rename_i o2 he2
               simp at hone; subst hone
-              exact evalRv_error (show RvOK n from hitem) f _ _ he2
+              exact evalRvC_error he2
           | group n =>
             simp only at hone
             split at hone
@@ -586,7 +585,7 @@ theorem iterNames_error (items : List IterItem) (hitems : ∀ i ∈ items, ItemO
             · simp at hone; subst hone; simp
             · rename_i o2 he2
               simp at hone; subst hone
-              exact evalRv_error (show RvOK n from hitem) f _ _ he2
+              exact evalRvC_error he2
           | location n =>
             simp only at hone
             split at hone
@@ -594,13 +593,13 @@ theorem iterNames_error (items : List IterItem) (hitems : ∀ i ∈ items, ItemO
             · simp at hone; subst hone; simp
             · rename_i o2 he2
               simp at hone; subst hone
-              exact evalRv_error (show RvOK n from hitem) f _ _ he2
+              exact evalRvC_error he2
         · simp at h
 
 /-- **the sources of `repeat in a and b and …`**: evaluated from the last to the first, their names
 pushed so that the first source's first name is on top, and counted -/
-theorem exec_iterItems (items : List IterItem) (hitems : ∀ i ∈ items, ItemOK i) :
-    ∀ (f : Nat) (σ σ' : S) (names : List String) (vars : List (LoopVar × Val)) (extra : List Val)
+theorem exec_iterItems (items : List IterItem) (hitems : ∀ i ∈ items, ItemOK V i) :
+    ∀ (f : Nat) (_ : RvToGoals V img K f) (σ σ' : S) (names : List String) (vars : List (LoopVar × Val)) (extra : List Val)
       (s : State) (pc : Nat) (c : Int),
       iterNames f items σ = .ok (names, σ') → Sim K (stk.inner vars extra) σ s → s.pc = (pc : Int) →
       CodeAt img pc (iterItems items) → getVar vars .counter = .int c →
@@ -609,7 +608,7 @@ theorem exec_iterItems (items : List IterItem) (hitems : ∀ i ∈ items, ItemOK
         getVar vars' .counter = .int (c + names.length)) := by
   induction items with
   | nil =>
-    intro f σ σ' names vars extra s pc c h sim hpc _ hcnt
+    intro f _ σ σ' names vars extra s pc c h sim hpc _ hcnt
     cases f with
     | zero => simp [iterNames] at h
     | succ f =>
@@ -617,16 +616,18 @@ theorem exec_iterItems (items : List IterItem) (hitems : ∀ i ∈ items, ItemOK
       obtain ⟨rfl, rfl⟩ := h
       exact Exec.done ⟨vars, ⟨by simpa [iterItems] using hpc, by simpa using sim⟩, by simpa using hcnt⟩
   | cons item rest ih =>
-    intro f σ σ' names vars extra s pc c h sim hpc hc hcnt
+    intro f ihRvs σ σ' names vars extra s pc c h sim hpc hc hcnt
     cases f with
     | zero => simp [iterNames] at h
     | succ f =>
+      have ihRv := ihRvs f (Nat.le_succ f)
       rw [iterItems_cons] at hc ⊢
       simp only [iterNames] at h
       split at h
       · simp at h
       · rename_i ys σ1 hrest
-        refine (ih (fun i hi => hitems i (by simp [hi])) f σ σ1 ys vars extra s pc c hrest sim hpc hc.left
+        refine (ih (fun i hi => hitems i (by simp [hi])) f (fun g hg => ihRvs g (Nat.le_succ_of_le hg)) σ σ1 ys vars
+          extra s pc c hrest sim hpc hc.left
           hcnt).trans fun t1 ⟨vars1, ht1, hc1⟩ => ?_
         have hitem := hitems item (by simp)
         have hci := hc.right
@@ -657,15 +658,14 @@ theorem exec_iterItems (items : List IterItem) (hitems : ∀ i ∈ items, ItemOK
               fun t2 ⟨vars2, ht2, hc2⟩ => ?_
             exact hfin t2 vars2 16 (by rw [Nat.add_assoc] at ht2; exact ht2) rfl hc2
           | light n =>
-            have hn : RvOK n := hitem
+            have hn : RvC V n := hitem
             simp only at hone
             split at hone
             · rename_i x σ3 he
               simp only [Except.ok.injEq, Prod.mk.injEq] at hone
               obtain ⟨rfl, rfl⟩ := hone
               simp only [iterItem] at hci
-              obtain ⟨rfl, hex⟩ := exec_toResult n hn ht1.2 ht1.1 hci.left.left he
-              refine hex.trans fun t2 ⟨ht2, hr2⟩ => ?_
+              refine (rv_toResult ihRv n hn ht1.2 ht1.1 hci.left.left he).trans fun t2 ⟨ht2, hr2⟩ => ?_
               refine (exec_pushResult (.str x) ht2.2 ht2.1 (idx hci.left.right.head) hr2 (by simp)).trans
                 fun t3 ht3 => ?_
               have hcc := hci.right
@@ -683,15 +683,14 @@ theorem exec_iterItems (items : List IterItem) (hitems : ∀ i ∈ items, ItemOK
             · simp at hone
             · simp at hone
           | group n =>
-            have hn : RvOK n := hitem
+            have hn : RvC V n := hitem
             simp only at hone
             split at hone
             · rename_i g σ3 he
               simp only [Except.ok.injEq, Prod.mk.injEq] at hone
               obtain ⟨rfl, rfl⟩ := hone
               simp only [iterItem] at hci
-              obtain ⟨rfl, hex⟩ := exec_toLoopVar n hn .first vars1 _ ht1.2 ht1.1 hci.left he
-              refine hex.trans fun t2 ht2 => ?_
+              refine (rv_toLoopVar ihRv n hn .first vars1 _ ht1.2 ht1.1 hci.left he).trans fun t2 ht2 => ?_
               refine (exec_iterMembers (Or.inl rfl) g (c + ys.length) ht2.2 ht2.1 hci.right
                 (by rw [getVar_putVar_other _ _ _ _ (by decide)]; exact hc1) (getVar_putVar _ _ _)).mono
                 fun t3 ⟨vars3, ht3, hc3⟩ => ?_
@@ -702,15 +701,14 @@ theorem exec_iterItems (items : List IterItem) (hitems : ∀ i ∈ items, ItemOK
             · simp at hone
             · simp at hone
           | location n =>
-            have hn : RvOK n := hitem
+            have hn : RvC V n := hitem
             simp only at hone
             split at hone
             · rename_i g σ3 he
               simp only [Except.ok.injEq, Prod.mk.injEq] at hone
               obtain ⟨rfl, rfl⟩ := hone
               simp only [iterItem] at hci
-              obtain ⟨rfl, hex⟩ := exec_toLoopVar n hn .first vars1 _ ht1.2 ht1.1 hci.left he
-              refine hex.trans fun t2 ht2 => ?_
+              refine (rv_toLoopVar ihRv n hn .first vars1 _ ht1.2 ht1.1 hci.left he).trans fun t2 ht2 => ?_
               refine (exec_iterMembers (Or.inr rfl) g (c + ys.length) ht2.2 ht2.1 hci.right
                 (by rw [getVar_putVar_other _ _ _ _ (by decide)]; exact hc1) (getVar_putVar _ _ _)).mono
                 fun t3 ⟨vars3, ht3, hc3⟩ => ?_
